@@ -8,8 +8,9 @@ EXTENDS SolutionCodec
 
 CONSTANTS MaxCoop            \* longest cooperative solution enumerated exhaustively (2..3)
 
-VARIABLE sol
-vars == <<sol>>
+VARIABLES sol,      \* the CURRENT descriptor (what is written and must come back)
+          hist      \* how the real object reaches it: [origin, init] (SolutionCodec!Histories)
+vars == <<sol, hist>>
 
 ScenTokens == {"T", "S", "I", "coop", "bare", "barecfg", "v2018b"}
 StepPatterns == {<<0>>, <<0, 1>>, <<0, 1, 2>>, <<3>>, <<3, 4, 5>>, <<0, 2, 5>>}
@@ -74,8 +75,20 @@ CCoop  == UNION {{DefSol([i \in 1..n |-> DefPP(t[1][i], t[2][i])]) : t \in [1..n
 
 Cases == CKind \cup CSteps \cup CVal1 \cup CValAll \cup CNumpy \cup CMeta \cup CMetaVal \cup CCoop \cup COrder \cup COrderCoop
 
-Init == sol \in Cases
-Next == UNCHANGED sol
+(* mutate-after-construction: every public attribute alone and all together, for every kind, object built or read *)
+(* from a document; cooperative pairs with the first / second / both planning problem solutions mutated          *)
+Hist(s, toks, idx, origin) == <<s, [origin |-> origin, init |-> InitOf(s, toks, idx)]>>
+CMut == {Hist(DefSol(<<DefPP(t[1], 7)>>), {t[2]}, {1}, t[3]) : t \in KindModels \X MutTokens \X {"built", "read"}}
+        \cup {Hist(DefSol(<<DefPP(t[1], 7)>>), MutTokens \ {"traj"}, {1}, t[2]) : t \in KindModels \X {"built", "read"}}
+        \cup {Hist(Sol(<<DefPP(<<"KS", "KS">>, 7)>>, t[1], t[2], t[3], "T"), {"ct", "date", "proc"}, {}, t[4]) :
+                 t \in {"None", "ord"} \X {"None", "plain"} \X {"None", "plain"} \X {"built", "read"}}
+CMutCoop == {Hist(DefSol(<<DefPP(t[1], 10), DefPP(t[2], 20)>>), {t[3]}, t[4], t[5]) :
+               t \in CoopKinds \X CoopKinds \X {"ppid", "cost", "vtype", "traj", "kind"} \X {{1}, {2}, {1, 2}}
+                      \X {"built", "read"}}
+CasesH == {<<s, [origin |-> "none", init |-> s]>> : s \in Cases} \cup CMut \cup CMutCoop
+
+Init == \E c \in CasesH : sol = c[1] /\ hist = c[2]
+Next == UNCHANGED vars
 Spec == Init /\ [][Next]_vars
 
 (* ---- laws ---- *)
@@ -90,5 +103,10 @@ LawSchema      == SchemaApplies(sol) => SchemaAccepts(AbstractDoc(sol))
 LawSchemaStrict == ~SchemaApplies(sol) => ~SchemaAccepts(AbstractDoc(sol))
 LawReadBack    == ReadBack(sol) = Carried(sol)
 
-Emit == PrintT(<<"CASE", ToJson(sol)>>)
+LawHistory     == HistoryInScope(sol, hist)
+
+Emit == PrintT(<<"CASE", ToJson(IF hist.origin = "none" THEN sol
+                                ELSE [pps |-> sol.pps, ct |-> sol.ct, date |-> sol.date, proc |-> sol.proc,
+                                      scen |-> sol.scen, route |-> sol.route, origin |-> hist.origin,
+                                      init |-> hist.init])>>)
 =================================================================================
